@@ -41,11 +41,20 @@ MISMATCH_SHAPES = ("none", "assert", "expect", "expect+assert")
 FIXTURE_SHAPES = ("none", "ok@setUp", "fail@test", "fail+badcleanup@test")
 MULTI_NESTED = "multi_nested"
 pg.FLATTEN[MULTI_NESTED] = (pg.ERROR, pg.ERROR, pg.FAIL)
-KINDS = (pg.RET, pg.FAIL, pg.ERROR, pg.SKIP, pg.XFAIL, pg.UXSUCCESS, pg.MULTI, MULTI_NESTED, pg.KBI)
+SAME_EXC = "same_exc"  # one stored exception OBJECT, raised again by every stage that picks this behaviour
+pg.FLATTEN[SAME_EXC] = (pg.ERROR,)
+KINDS = (pg.RET, pg.FAIL, pg.ERROR, pg.SKIP, pg.XFAIL, pg.UXSUCCESS, pg.MULTI, MULTI_NESTED, pg.KBI, SAME_EXC)
 _prev_perform = pg.perform
 
 
 def _perform(case, ctx, stage, kind):
+    if kind == SAME_EXC:
+        exc = ctx.extra.get("same_exc")
+        if exc is None:
+            exc = ctx.extra["same_exc"] = pg.VerifError("same!error")
+        ctx.raised.append((stage, kind, "same!error"))
+        ctx.xlog.append(("raise", stage, kind))
+        raise exc
     if kind == MULTI_NESTED:
         # MultipleExceptions with a MultipleExceptions among its constituents (three user exceptions)
         import sys
@@ -324,11 +333,13 @@ def check_execution(cfg, ctx, config, shared, how):
             exc_markers.append(marker)
     exc_markers.extend(ctx.extra.get("user_exc", []))
     tb_type = repr(TB_TYPE)
-    for m in exc_markers:
+    for m in dict.fromkeys(exc_markers):
         mb = m.encode("utf8")
         hits = [k for k, (ct, b) in details.items() if ct == tb_type and mb in b]
+        # (the same exception object raised by several stages: one traceback per raise)
+        want_hits = exc_markers.count(m)
         # a failing fixture's SetupError traceback chains ("During handling of ...") the original one
-        if len(hits) != 1 and not (m.endswith("!fixture") and len(hits) in (2, 3)):
+        if len(hits) != want_hits and not (m.endswith("!fixture") and len(hits) in (2, 3)):
             clause = "traceback"
             if config.decorator == "xfail_decorator" and m.startswith("test!"):
                 clause = "traceback-behind-expectedFailure-decorator"
@@ -372,13 +383,13 @@ def check_execution(cfg, ctx, config, shared, how):
         flat.extend(ctx.extra.get("user_exc", []))
         for e in hcalls:
             # (under @expectedFailure whatever the body raises is wrapped whole into one expected failure)
-            covered = [m for m in flat if m in e[2] and not m.endswith("!fixture") and not (config.decorator == "xfail_decorator" and m.startswith("test!"))]
+            covered = [m for m in dict.fromkeys(flat) if m in e[2] and not m.endswith("!fixture") and not (config.decorator == "xfail_decorator" and m.startswith("test!"))]
             if len(covered) > 1:
                 problems.append(("handler-count", "one handler call stands for several user exceptions %r (a MultipleExceptions passed on whole?)" % (covered,)))
-        for m in flat:
+        for m in dict.fromkeys(flat):
             for i in range(nh):
                 n = sum(1 for e in hcalls if e[1] == i and m in e[2])
-                if n != 1:
+                if n != flat.count(m):
                     problems.append(("handler-count", "handler %d called %d times for exception %s (calls %r)" % (i, n, m, hcalls)))
     return problems, outcome
 
